@@ -175,8 +175,9 @@ func (c *channels) monitorTopic(ctx context.Context, sub coreiface.PubSubSubscri
 		}
 
 		// Make sure the message is coming from the correct peer
-		// Filter out all messages that didn't come from the second peer
-		if msg.From().String() == c.selfID.String() {
+		// Filter out all messages that didn't come from the second peer: our own, and those
+		// of anybody else who publishes on the topic (its name is made of two public ids)
+		if msg.From() != p {
 			continue
 		}
 
